@@ -423,17 +423,23 @@ PROPS["C09"] = {
 
 PROPS["C18"] = {
     "level": "model_checking",
-    "explanation": "sequential isolation only (2-safety): two decodes of the same symbolic input with the same program parameters that differ only in the arbitrary contents of the shared read buffer (the state that survives from one decode to the next and is handed to nested decodes) produce identical trees, values, ranges and errors; byte slices returned to callers do not alias the shared buffer",
-    "wall_quick": 600, "wall_thorough": 1800,
+    "race": True,
+    "explanation": "(a) sequential isolation (2-safety): two decodes of the same symbolic input with the same program parameters that differ only in the arbitrary contents of the shared read buffer (the state that survives from one decode to the next and is handed to nested decodes) produce identical trees, values, ranges and errors; byte slices returned to callers do not alias the shared buffer. (b) concurrency, under the engine's baton scheduler with a vector-clock happens-before race detector (as C20): first use of the process-wide registry by two jobs at once (sync.Once group resolution and sorting), first use of a lazily compiled regexp by two jobs at once, two concurrent decode jobs of one input: every interleaving within the pre-emption bound is free of data races, deadlocks and panics and gives the result of a lone run",
+    "technique": "bounded symbolic execution of the real Go SSA; an SMT solver (z3) decides every branch, runtime-fault check and assertion of the sequential 2-safety harnesses; the concurrency harnesses run the real code under the engine's deterministic baton scheduler, every scheduling choice being a decision variable explored exhaustively within the pre-emption bound (no SMT queries are needed for them: their data domain is trivial), a vector-clock happens-before detector decides data races; counterexamples replayed natively (go test -race)",
+    "wall_quick": 600, "wall_thorough": 3600,
     "harnesses": [
         {"entry": "pkg/decode.VerifIsolationFlat", "clause": "program flat, two decodes with different read-buffer garbage", "bounds": {"buffer_bytes": "0..6"}},
         {"entry": "pkg/decode.VerifIsolationNested", "clause": "program nested", "bounds": {"buffer_bytes": "0..6"}},
         {"entry": "pkg/decode.VerifIsolationFramed", "clause": "program framed", "bounds": {"buffer_bytes": "0..6"}},
         {"entry": "pkg/decode.VerifIsolationSubformat", "clause": "program subformat (nested decode shares the read buffer)", "bounds": {"buffer_bytes": "0..6"}},
         {"entry": "pkg/decode.VerifNoAlias", "clause": "BytesLen/BytesRange results are unchanged by later reads", "bounds": {"pos": "0..7"}},
+        {"entry": "pkg/interp.VerifRegistryConcurrent", "group": "conc", "clause": "two first users of a registry (3 formats, a probe group needing sorting, one dependency): both see the resolved sorted groups of a lone run; no race/deadlock/panic", "bounds": {"threads": 2, "preemptions": 1, "scheduling points": "loads/stores of pkg/interp and of the slices sort it calls, sync operations"}},
+        {"entry": "pkg/interp.VerifRegistryConcurrent2", "group": "conc", "tier": "thorough", "clause": "same with 2 pre-emptions", "bounds": {"preemptions": 2}},
+        {"entry": "internal/lazyre.VerifLazyREConcurrent", "group": "conc", "clause": "two first users of a lazily compiled regexp (html probe): same compiled regexp, no race/deadlock/panic", "bounds": {"threads": 2, "preemptions": 2}},
+        {"entry": "pkg/decode.VerifConcurrentDecode", "group": "conc", "clause": "two concurrent decodes of one 4-byte symbolic input (struct, array, raw field, gap filling): trees equal the lone run's; no race on package-level state of pkg/decode", "bounds": {"threads": 2, "preemptions": 1}},
     ],
-    "assumptions": [],
-    "outside": ["schedules and data races of concurrent decodes, registry resolution under sync.Once, include cache, package-level tables: interleavings are not encodable by the engine (no scheduler) — the concurrency clauses of the property are NOT decided"],
+    "assumptions": ["sequential consistency (no weak memory effects)", "sync.Mutex/RWMutex/Once/WaitGroup, channels and sync/atomic are the engine's models with their documented happens-before edges"],
+    "outside": ["concurrent jq evaluations (Interp.Eval clone, include cache: gojq VM)", "package-level tables of the ~130 format packages", "more than 2 threads", "per-format option deep copy (ParseOptsFn: reflection)", "state kept by third-party packages (e.g. gopacket defragmenter)"],
 }
 
 PROPS["C19"] = {
@@ -473,6 +479,7 @@ PROPS["C08"] = {
 PROPS["C20"] = {
     "level": "model_checking",
     "race": True,
+    "technique": "bounded symbolic execution of the real Go SSA (ctxstack, context, iox) under the engine's deterministic baton scheduler: the operation sequence is a symbolic input and every scheduling choice a decision variable, explored exhaustively within the stated operation and pre-emption bounds; a vector-clock happens-before detector decides data races; because no constraint ever relates these variables the case splits are decided without SMT queries (queries=0 in the evidence) - the verdict is the executor's exhaustive bounded exploration; counterexample schedules are replayed natively under go test -race",
     "explanation": "the real ctxstack.Stack with its trigger goroutine (shaped like the one interp.New installs), the real context.WithCancel (interpreted) and iox.CtxWriter: goroutines run under the engine's deterministic baton scheduler, the choice of the next thread at every scheduling point (channel, select, mutex, atomic operations and every load/store made by ctxstack's functions) is an exploration decision, a vector-clock happens-before detector flags unordered conflicting accesses. Sequential histories against a reference stack model; interleavings under a pre-emption bound for panics, deadlocks and data races",
     "wall_quick": 900, "wall_thorough": 7200,
     "harnesses": [
@@ -484,4 +491,22 @@ PROPS["C20"] = {
     ],
     "assumptions": ["sequential consistency (no weak memory effects)", "the data domain is trivial here: the solver's role is only to enumerate schedule and operation choices within the bound; races are confirmed natively by go test -race on the same operation sequence"],
     "outside": ["real signal delivery (cli.go)", "the REPL jq code", "more than 2 threads", "ctxreadseeker"],
+}
+
+
+PROPS["C07"] = {
+    "level": "model_checking",
+    "explanation": "REDUCED claim: only the Go kernel of C07 that produces JSON text. Every JSON output line of fq and its tojson override go through internal/colorjson.Encoder; the harnesses run it and the real encoder of the embedded reference engine (gojq.Marshal, same executor) on the same symbolic value and assert byte equality: strings of arbitrary bytes (every escape class, DEL, invalid/overlong UTF-8), number class representatives at every formatting boundary, big integers, arrays and objects (key order), values behind ValueFn; indentation and colouring are shown to add only removable decoration with the exact indent width. The jq-text overrides (binary.jq, funcs.jq, json.jq), the regular-expression functions (match.go, Go regexp over symbolic text) and fromjson (encoding/json, reflection) are NOT covered: they run in the gojq VM / reflective parsers (DESIGN §6)",
+    "wall_quick": 1200, "wall_thorough": 7200,
+    "harnesses": [
+        {"entry": "internal/colorjson.VerifEncodeString", "clause": "string -> JSON text equals the reference engine's", "bounds": {"bytes": "0..3, any values"}},
+        {"entry": "internal/colorjson.VerifEncodeString4", "tier": "thorough", "clause": "same, 4 bytes", "bounds": {"bytes": "0..4"}},
+        {"entry": "internal/colorjson.VerifEncodeValue", "clause": "scalars (9 ints, 20 floats incl. NaN/Inf/-0/1e-6/1e21 boundaries, 3 big integers, strings <= 3 bytes), arrays and objects of up to two small elements: compact text equals the reference engine's", "bounds": {"elements": "<= 2", "keys": "7 representatives"}},
+        {"entry": "internal/colorjson.VerifEncodeNested", "tier": "thorough", "clause": "same with one level of nesting inside the elements", "bounds": {"depth": 2}},
+        {"entry": "internal/colorjson.VerifEncodeIndentColor", "clause": "indent (9 widths x spaces/tabs, through every threshold of writeIndentInternal's doubling loop) and colour: stripping the decoration gives the reference text; each line is indented depth x width", "bounds": {"shapes": "12 container shapes of depth <= 2 around a symbolic one-byte string", "indent": "0,1,2,7,9,16,17,33,50"}},
+        {"entry": "internal/colorjson.VerifEncodeValueFn", "clause": "values behind ValueFn (decode values) are encoded as their plain JSON value", "bounds": {}},
+    ],
+    "assumptions": ["number -> decimal text runs the real strconv/big code on concrete representatives (symbolic numbers would be replaced by the engine's placeholder numeral, so they are not used here)",
+                    "object keys are drawn from 7 representatives (the executor's maps need concrete keys); key text uses the same encodeString as values"],
+    "outside": ["jq-text overrides in binary.jq/funcs.jq/json.jq", "regular-expression built-ins (match.go)", "fromjson / encoding/json", "program-level equivalence with gojq over a program grammar"],
 }
